@@ -125,16 +125,8 @@ pub struct Oracle {
     /// right-edge filler that a draw cut by the height `break` before its last line does not write
     /// (detected as: a draw that painted something ends left of the right edge while the frame is
     /// taller than the terminal - an uncut draw always ends with the filler).
-    /// Second symptom of the same cause (the prototype patch P1 of D14 repairs both): a draw whose
-    /// vector is cut by the `break` before its FIRST line erases the old rows, paints nothing and
-    /// leaves the cursor on the blank row below the remaining output, but `cursor_below` stays false
-    /// (it is only set for an EMPTY vector), so the next erase is off by one row; `vt_fixed` gets the
-    /// missing move_cursor_up(1).
     vt_fixed: Vt,
     cut_injected: bool,
-    /// cursor_below as the real code keeps it / as the repaired code (P1) would keep it
-    below_real: bool,
-    below_fixed: bool,
     /// 'empty-line-after-text-only-draw-swallowed' (open finding, C01/C03; Coq:
     /// C01_empty_line_swallowed_refuted): the FIRST line written by a suspend closure is empty while
     /// the cursor is wrap-pending at the right edge (left there by a draw whose last painted line was
@@ -228,8 +220,6 @@ impl Oracle {
             text_without_bar: false,
             vt_fixed: Vt::new(case.w, case.h),
             cut_injected: false,
-            below_real: false,
-            below_fixed: false,
             bottom_full_height_empty: false,
             vt_swallow: Vt::new(case.w, case.h),
             swallow_injected: false,
@@ -1047,54 +1037,14 @@ impl Oracle {
             .iter()
             .map(|i| i.cands.iter().map(|c| c.len()).max().unwrap_or(0))
             .sum();
-        // where the repaired code would move the cursor up one more row before erasing (see below_fixed)
-        let ups: Vec<usize> = {
-            let e = &o.emitted;
-            let mut pos = vec![];
-            let mut i = 0;
-            let mut draw_no = 0;
-            while i < e.len() {
-                match &e[i] {
-                    TOp::Up(_) => {
-                        let end = e[i..].iter().position(|x| *x == TOp::Flush).map_or(e.len() - 1, |k| i + k);
-                        let seg = &e[i..=end];
-                        let erased = seg.iter().any(|x| *x == TOp::Clear);
-                        let erases_first = seg
-                            .iter()
-                            .find(|x| matches!(x, TOp::Clear | TOp::Str(_) | TOp::Line(_)))
-                            .map_or(false, |x| *x == TOp::Clear);
-                        let last_up = seg.iter().rposition(|x| matches!(x, TOp::Up(_))).unwrap_or(0);
-                        let painted_sth = seg[last_up..].iter().any(|x| matches!(x, TOp::Str(_)));
-                        if erases_first && self.below_fixed && !self.below_real {
-                            pos.push(i);
-                        }
-                        // the vector of this draw is known to be empty for clear() and the first draw of suspend
-                        let empty_vector = matches!(op, Op::MClear) || (draw_no == 0 && matches!(op, Op::MSuspend(_) | Op::Suspend(..)));
-                        let nonempty_cut = !painted_sth && !empty_vector && tall > self.h;
-                        self.below_real = if painted_sth || nonempty_cut { false } else if erased { true } else { self.below_real };
-                        self.below_fixed = if painted_sth { false } else if erased { true } else { self.below_fixed };
-                        draw_no += 1;
-                        i = end + 1;
-                    }
-                    TOp::Line(_) | TOp::Str(_) => {
-                        self.below_real = false; // written by the closure of suspend
-                        self.below_fixed = false;
-                        i += 1;
-                    }
-                    _ => i += 1,
-                }
-            }
-            pos
-        };
+        // (the second symptom of the old D14 - cursor_below reset by a draw that painted nothing - was
+        // fixed by dadbe71: there is no repair for it any more, it is a violation if it reappears)
         {
             let w = self.w;
-            let feed_with = |vt: &mut Vt, ups: &[usize], swallow: Option<usize>| -> bool {
+            let feed_with = |vt: &mut Vt, swallow: Option<usize>| -> bool {
                 let mut injected = false;
                 let _ = crate::catch(|| {
                     for (i, x) in o.emitted.iter().enumerate() {
-                        if ups.contains(&i) {
-                            vt.feed(&[TOp::Up(1)]);
-                        }
                         if swallow == Some(i) && vt.cursor().1 == w {
                             vt.feed(&[TOp::Line(String::new())]);
                             injected = true;
@@ -1104,18 +1054,14 @@ impl Oracle {
                 });
                 injected
             };
-            if feed_with(&mut self.vt_swallow, &[], empty_first_closure_line) {
+            if feed_with(&mut self.vt_swallow, empty_first_closure_line) {
                 self.swallow_injected = true;
             }
-            if feed_with(&mut self.vt_both, &ups, empty_first_closure_line) {
+            if feed_with(&mut self.vt_both, empty_first_closure_line) {
                 self.last_injected = "empty-line-after-text-only-draw-swallowed";
                 self.both_swallow_injected = true;
             }
-            let _ = feed_with(&mut self.vt_fixed, &ups, None);
-            if !ups.is_empty() {
-                self.cut_injected = true;
-                self.last_injected = "height-cut-leaves-cursor-mid-row";
-            }
+            let _ = feed_with(&mut self.vt_fixed, None);
         }
         self.all_ops.extend(o.emitted.iter().cloned());
         if painted {
